@@ -42,7 +42,11 @@ func runParallel(fm *Frame, functions ...Callable) error {
 		go func(fm2 *Frame, function Callable, pexc *Exception) {
 			err := function.Call(fm2, NoArgs, NoOpts)
 			if err != nil {
-				*pexc = err.(Exception)
+				if exc, ok := err.(Exception); ok {
+					*pexc = exc
+				} else {
+					*pexc = &exception{err, fm2.traceback}
+				}
 			}
 			wg.Done()
 		}(fm.Fork(), function, &exceptions[i])
